@@ -397,6 +397,19 @@ def gen(args) -> list:
                             attr()
                         elif len(req) == 1 and name.startswith(("plus_", "with_")):
                             attr(rnd.choice([1, -1, 13]))
+                        elif len(req) == 1:
+                            # any other one-argument method: offered arguments of the usual kinds until it takes one (in_year(2023),
+                            # at(time), with_offset(offset), in_zone(zone), next(weekday), contains(value), compare_to(other) ...)
+                            import pyoda_time as _pt
+
+                            for cand in (vals[1], 2023, 2024, 1, _pt.LocalTime(1, 2), _pt.LocalDate(2020, 2, 29), _pt.Offset.from_hours(1), _pt.Duration.from_hours(1),
+                                         _pt.Period.from_days(1), _pt.CalendarSystem.julian, _pt.DateTimeZone.utc, _pt.IsoDayOfWeek.MONDAY,
+                                         _pt.Instant.from_unix_time_seconds(1), "x"):
+                                try:
+                                    attr(cand)
+                                    break
+                                except Exception:  # noqa: BLE001
+                                    continue
                         else:
                             continue
                         called += 1
